@@ -31,6 +31,11 @@ def _mk_step(others_states):
         st, r, out = call(tierops.apply, t, op, others)
         if st == "exc":
             if isinstance(r, PE):
+                # the tier that is left behind after a refused / reported operation is obtainable too
+                w0 = wellformed(t)
+                if w0:
+                    return None, 1, "ill-formed", None, [Viol("ill-formed-after-error:" + w0,
+                                                              f"{op} on {state} raised {r!r} and left the receiver as {canon(t)}")]
                 return None, 1, op[0] + ":" + type(r).__name__, None, []
             return None, 1, "X", None, [Viol("non-praatio-exception:" + type(r).__name__,
                                              f"{op} on {state} raised {r!r} (only praatio errors may replace a result)")]
